@@ -31,14 +31,14 @@ struct XzInfo {
 	// byte ranges of the produced file, for fault aiming and oracles
 	struct Range { size_t off, len; std::string field; };
 	std::vector<Range> fields;
-	size_t n_blocks = 0, n_streams = 0;
+	size_t n_blocks = 0, n_streams = 0, spoiled_blocks = 0;
 	std::vector<size_t> block_plain_sizes;
 };
 
 // One Stream whose Block Headers carry both size fields (the kind of file
 // the threaded encoder writes): built with lzma_block_buffer_encode.
 bool xz_build_sized(const Bytes &in, const std::vector<size_t> &block_sizes, lzma_filter *filters,
-		lzma_check check, Bytes &out, XzInfo *info, std::string &err);
+		lzma_check check, Bytes &out, XzInfo *info, std::string &err, int spoil_block = 0);
 // One Stream from the single-threaded encoder with LZMA_FULL_FLUSH at the
 // given offsets: Block Headers without size fields.
 bool xz_build_unsized(const Bytes &in, const std::vector<size_t> &block_sizes, lzma_filter *filters,
